@@ -742,6 +742,12 @@ class TrajectoryStore:
             if field.required and trajectory._data.get(name) is None:
                 raise ValueError(f'Data field "{name}" is None in added trajectory')
 
+        # The species dimension of a NetCDF file is fixed when the file is
+        # created: a trajectory with values for other species cannot be
+        # stored in it.
+        if self.nc_linked:
+            self._check_species(trajectory)
+
         # Decide on whether or not we can index the store, checking consistency
         # on this decision with each trajectory we add.
         has_flight_id = (
@@ -1667,6 +1673,24 @@ class TrajectoryStore:
         # Save the trajectory we've just loaded into the cache.
         self._trajectories[index] = traj
 
+    def _check_species(self, trajectory: Trajectory) -> None:
+        """Check that all species in a trajectory's species-indexed fields
+        exist in the species dimension of the NetCDF file holding the field."""
+        for fs_name, nc_files in self._nc.items():
+            for name, field in FieldSet.from_registry(fs_name).items():
+                if Dimension.SPECIES not in field.dimensions:
+                    continue
+                val = trajectory._data.get(name)
+                if val is None:
+                    continue
+                missing = set(val.keys()) - set(nc_files.species or [])
+                if missing:
+                    raise ValueError(
+                        f'Data field "{name}" has values for species '
+                        f'{sorted(sp.name for sp in missing)} that are not in '
+                        f'the species dimension of the NetCDF file'
+                    )
+
     def _write_trajectory(self, index: int) -> None:
         """Write a trajectory at the given index to the NetCDF file(s)."""
 
@@ -1718,7 +1742,9 @@ class TrajectoryStore:
                 elif data is not None:
                     val = getattr(data, name)
 
-                self._write_to_nc_var(var, index, name, field, val)
+                self._write_to_nc_var(
+                    var, index, name, field, val, nc_file.species or []
+                )
                 nc_file.traj_var[0][index] = index
 
     def _write_to_nc_var(
@@ -1728,8 +1754,12 @@ class TrajectoryStore:
         name: str,
         field: FieldMetadata,
         val: Any,
+        species: list[Species],
     ) -> None:
-        """Write a value to a NetCDF variable at the given index."""
+        """Write a value to a NetCDF variable at the given index.
+
+        The `species` list gives the species in the species dimension of the
+        NetCDF file, in file order."""
 
         # Handle missing values.
         if val is None:
@@ -1740,9 +1770,19 @@ class TrajectoryStore:
         # Save data to NetCDF variable, handling species and thrust modes. At
         # this point, we assume that all the types are correct, since these
         # will have been checked earlier. Numpy array values are saved as
-        # variable length types of the appropriate base type.
+        # variable length types of the appropriate base type. Species are
+        # written at their position in the file's species dimension (which
+        # holds only the species in the data, not all defined species).
         has_sp = Dimension.SPECIES in field.dimensions
         has_tm = Dimension.THRUST_MODE in field.dimensions
+        if has_sp:
+            missing = set(val.keys()) - set(species)
+            if missing:
+                raise ValueError(
+                    f'Data field "{name}" has values for species '
+                    f'{sorted(sp.name for sp in missing)} that are not in the '
+                    f'species dimension of the NetCDF file'
+                )
         match (has_sp, has_tm):
             case (False, False):
                 # float, np.ndarray
@@ -1753,12 +1793,12 @@ class TrajectoryStore:
                     var[index, ti] = val[tm]
             case (True, False):
                 # SpeciesValues[float], SpeciesValues[np.ndarray]
-                for si, sp in enumerate(Species):
+                for si, sp in enumerate(species):
                     if sp in val:
                         var[index, si] = val[sp]
             case (True, True):
                 # SpeciesValues[ThrustModeValues]
-                for si, sp in enumerate(Species):
+                for si, sp in enumerate(species):
                     for ti, tm in enumerate(ThrustMode):
                         if sp in val and tm in val[sp]:
                             var[index, si, ti] = val[sp][tm]
